@@ -246,11 +246,17 @@ def bounded(ctx):
         if pb:
             viol.append(dict(name="refpass_%s" % pb[0][:40], what="_ref_citations(features citing %r, references %r): %s" % (fs, r0, "; ".join(pb[:3])),
                              case=dict(features=fs, references=r0)))
+    # the shared scenarios: this property's oracle over the cross product of the unusual input dimensions
+    from bounded import scenarios as sn
+    n_sw, d_sw, v_sw = sn.sweep(ctx, ns, 'citations')
+    evals += n_sw
+    distinct |= {("shared",) + tuple(map(str, k_)) for k_ in d_sw}
+    viol.extend(v_sw)
     uniq = {}
     for v in viol:
         uniq.setdefault(v["name"], v)
     return dict(evaluations=evals, distinct_nontrivial=len(distinct),
-                rule="BsaI vector + 2 modules; reference lists of length 0-3 per input; features citing one or two references, "
+                rule="" + sn.SWEEP_RULE + "; BsaI vector + 2 modules; reference lists of length 0-3 per input; features citing one or two references, "
                      "inside and outside the retained fragment; a reference shared between inputs or not; a reference list with two "
                      "equal entries; 3 consecutive calls; checked: bracketed form, each product citation resolves to the reference "
                      "its source feature cited, product reference list = cited references, each once; inputs' indices unchanged; "
